@@ -1,5 +1,16 @@
 import ChessVerif.Props.C01
 open Chess.Props.C01
+#print axioms legals_iff
+#print axioms legals_nodup
+#print axioms isLegal_iff_spec
 #print axioms isLegal_iff
 #print axioms moveNew_isSome
-#print axioms yielded_iff_entry
+#print axioms generic_iff
+#print axioms pawn_iff
+#print axioms king_iff
+#print axioms legals_iff_parsed
+#print axioms legals_iff_reachable_standard
+#print axioms legals_iff_reachable_parsed
+#print axioms legals_nodup_reachable
+#print axioms isLegal_iff_spec_reachable
+#print axioms reachable_WF
